@@ -178,8 +178,22 @@ def run(chk):
         n_fp += 1
         fp_nt.add((inp, " ".join(opts)))
         if not same:
+            sig = "fixpoint"
+            if "--use-aes=y" in opts or "--bits=256" in opts:
+                # D16: an EMPTY stream of an AES-encrypted input has raw /Length 32, is not recognised as empty by the writer's
+                # "do not compress empty streams" rule and gains /Filter /FlateDecode in generation 2 (appended) whose position in the
+                # dictionary changes in generation 3: generations 3 and 4 are identical. Recognised by: the decrypted, uncompressed
+                # QDF forms of generation 2 and 3 are identical, and generation 3 = generation 4.
+                g = [os.path.join(wd, "g%d-%d.pdf" % (jid, k)) for k in (2, 3)]
+                q = [common.run_qpdf(["--password=o", "--static-id", "--qdf", "--stream-data=uncompress", "--decrypt", x, "-"])[1] for x in g]
+                g4 = os.path.join(wd, "g%d-4.pdf" % jid)
+                i, j = opts.index("--encrypt"), opts.index("--")
+                o2 = opts[:i] + opts[j + 1:]
+                common.run_qpdf(["--password=o"] + o2 + [g[1], g4])
+                if q[0] == q[1] and q[0] and os.path.exists(g4) and open(g4, "rb").read() == open(g[1], "rb").read():
+                    sig = "C09:aes-empty-stream-gen2"
             chk.violation({"kind": "property-fails-on-implementation", "why": "generation 2 and generation 3 differ", "input": inp,
-                           "argv": ["qpdf"] + opts, "exits": rcs}, signature="fixpoint")
+                           "argv": ["qpdf"] + opts, "exits": rcs}, signature=sig)
     chk.count("fixpoint-gen2-gen3", n_fp, fp_nt, samples=[{"input": os.path.basename(fp_jobs[0][0]), "opts": fp_jobs[0][1]}])
     if tie:
         chk.violation({"kind": "correspondence-broken", "correspondence": "corr:C09:static-id-iv", "differing_cases": len(tie), "first_cases": tie[:3]}, no_input=True)
